@@ -94,7 +94,17 @@ class C11:
             tn = rng.choice([b"x", b"x", b"y.z"])
             x = LAYERS + [b(tn)]
             r = rng.random()
-            if r < 0.72:
+            if len(cases) % 100 == 7:
+                # a deep chain of directories (node_modules-style nesting): depth is no reason to stop or fail
+                init.append({"p": x, "k": "d", "m": 0o755})
+                p = x
+                for lvl in range(rng.choice([33, 41, 64, 130])):
+                    p = p + [b(b"n")]
+                    init.append({"p": p, "k": "d", "m": 0o555 if rng.random() < 0.05 else 0o755})
+                    if rng.random() < 0.1:
+                        init.append({"p": p + [b(b"f")], "k": "f", "m": 0o644, "c": [7]})
+                init.append({"p": p + [b(b"leaf")], "k": "f", "m": 0o444, "c": [1]})
+            elif r < 0.72:
                 init.append({"p": x, "k": "d", "m": rng.choice([0o755, 0o755, 0o555, 0o000, 0o311])})
                 self.layer_tree(rng, x, 1, init)
             elif r < 0.92:
